@@ -304,6 +304,10 @@ def make_summaries(W, N, fns):
         op = c.rsplit("::", 1)[1]
         return {"lt": z3.ULT(x, y), "le": z3.ULE(x, y), "gt": z3.UGT(x, y), "ge": z3.UGE(x, y), "eq": x == y, "ne": x != y}[op]
 
+    def s_dur_minmax(I, a, p, c):
+        x, y = _val(a[0]), _val(a[1])
+        return z3.If(z3.UGE(x, y), x, y) if c.endswith("max") else z3.If(z3.ULE(x, y), x, y)
+
     def s_u64_cmp(I, a, p, c):
         x, y = a[0].cell.v, a[1].cell.v
         if p.decide(z3.ULT(x, y)):
@@ -336,6 +340,7 @@ def make_summaries(W, N, fns):
         (r"<Instant as Add<Duration>>::add$|<Instant as AddAssign<Duration>>", s_inst_add), (r"<Instant as Sub<Duration>>::sub$", s_inst_sub),
         (r"<Instant as Sub>::sub$|<Instant as Sub<Instant>>::sub$", s_instant_dur_since),
         (r"^Instant::checked_add$", s_inst_checked_add),
+        (r"<Duration as Ord>::(?:max|min)$", s_dur_minmax),
         (r"<Duration as Add>::add$", s_dur_add), (r"<Duration as PartialOrd>::(?:lt|le|gt|ge)$|<Duration as PartialEq>::(?:eq|ne)$", s_dur_rel),
         (r"^Context::<'_>::waker$", s_ctx_waker),
         (r"BTreeMap<.*> as Default>::default", s_map_default), (r"BTreeMap::<.*>::new$", s_map_default),
